@@ -28,3 +28,21 @@ CHECKS['C06'] = dict(
     ],
     min_nontrivial={'quick': 500, 'thorough': 500},
 )
+
+CHECKS['C08'] = dict(
+    level='exploration',
+    rule="seq: random operation sequences (ec_encode, ec_encode_bin, bit_logp, icdf, icdf16, uint up to 2^32-1, raw bits 1..25, "
+         "shrink, initial-bit patching) of length 1..4000 into buffers of 1..1275 bytes biased to nearly-full, with skewed "
+         "symbol choices forcing carry chains; each finished-without-error stream is decoded by mirrored calls. Distinct = "
+         "(set of op kinds used, remaining-space class, patched, shrunk, skew, buffer-size class, length class). tellfrac: "
+         "the fast ec_tell_frac against the iterative reference for all 2^15 top-16-bit range values x every ilog 24..32 "
+         "(exhaustive over the value classes the function distinguishes).",
+    assumptions=COMMON_ASSUME + ["operation parameters stay inside each function's documented precondition"],
+    evals_counter='sequences',
+    runs=[
+        dict(h='h_c08.c', mode='tellfrac', flavour='asan', n=9),
+        dict(h='h_c08.c', mode='seq', flavour='asan', n={'quick': 40000, 'thorough': 1250000}),
+    ],
+    min_nontrivial={'quick': 300, 'thorough': 300},
+    min_counters={'quick': {'sequences_ok': 50000, 'patched_ok': 100, 'shrunk_ok': 100}, 'thorough': {'sequences_ok': 1000000}},
+)
